@@ -10,6 +10,7 @@ from simlib import Rng, mkspec, random_sched
 PROPERTY = "C01"
 LEVEL = "exploration"
 BUDGET = {"quick": 75, "thorough": 1500}
+MIN_CASES = {"quick": 1200}  # see checklib.Check: quick goes on to this many cases on a loaded machine (up to 3x its budget)
 RULE = ("cases: a record list inside the written-down representable domain of a format (csv, csvlite with schema blocks, tsv, "
         "json, jsonl, dkvp, nidx, xtab, pprint, barred pprint, markdown, usv, asv) x option variant (quote-all, CRLF, custom and "
         "multi-char separators, headerless/implicit header, BOM). Per case: a writer run (JSON in -> fmt out) and reader "
